@@ -73,6 +73,61 @@ pub fn read_oracle(store: &Store, bank: &Bank, clock: SimClock) -> Result<Oracle
                 ema: pp,
             })
         }
+        OracleSetup::StakedWithPythPush => {
+            // SOL price from the configured feed, scaled by the pool's exchange rate
+            // (delegated stake less the pool's permanent 1 SOL) / LST supply, computed on the
+            // integer mantissas (truncating), exactly as published.
+            let key = bank.config.oracle_keys[0];
+            let acc = store.get(&key).ok_or(OracleBad::Missing)?;
+            if acc.owner != pyth_solana_receiver_sdk::id() {
+                return Err(OracleBad::WrongOwner);
+            }
+            let p = parse_pyth(&acc.data).ok_or(OracleBad::BadData)?;
+            if !p.verification_full {
+                return Err(OracleBad::Unverified);
+            }
+            if p.publish_time.saturating_add(max_age_of(bank)) < clock.unix_timestamp {
+                return Err(OracleBad::Stale);
+            }
+            let mint = store.get(&bank.config.oracle_keys[1]).ok_or(OracleBad::Missing)?;
+            if mint.owner != crate::rt::spl_token_id() && mint.owner != crate::rt::token22_id() {
+                return Err(OracleBad::WrongOwner);
+            }
+            let supply = crate::fixtures::mint_supply(&mint.data).ok_or(OracleBad::BadData)?;
+            if supply == 0 {
+                return Err(OracleBad::BadData);
+            }
+            let pool = store.get(&bank.config.oracle_keys[2]).ok_or(OracleBad::Missing)?;
+            let stake = crate::fixtures::parse_stake(&pool.data).ok_or(OracleBad::BadData)?;
+            let adj = stake.checked_sub(1_000_000_000).ok_or(OracleBad::BadData)?;
+            let adjm = |m: i64| -> Result<i128, OracleBad> {
+                let x = (m as i128).checked_mul(adj as i128).ok_or(OracleBad::OutOfRange)? / supply as i128;
+                if x > i64::MAX as i128 || x < i64::MIN as i128 {
+                    return Err(OracleBad::OutOfRange);
+                }
+                Ok(x)
+            };
+            let scale = |m: i128, e: i32| -> Q {
+                if e >= 0 {
+                    qi(m) * pow10(e as u32)
+                } else {
+                    qi(m) / pow10((-e) as u32)
+                }
+            };
+            let cm = qr(212, 100);
+            Ok(OracleView {
+                spot: PricePair {
+                    price: scale(adjm(p.price)?, p.exponent),
+                    conf: scale(p.conf as i128, p.exponent) * &cm,
+                    conf_raw: scale(p.conf as i128, p.exponent),
+                },
+                ema: PricePair {
+                    price: scale(adjm(p.ema_price)?, p.exponent),
+                    conf: scale(p.ema_conf as i128, p.exponent) * &cm,
+                    conf_raw: scale(p.ema_conf as i128, p.exponent),
+                },
+            })
+        }
         OracleSetup::PythPushOracle => {
             let key = bank.config.oracle_keys[0];
             let acc = store.get(&key).ok_or(OracleBad::Missing)?;
